@@ -17,6 +17,7 @@ LEVEL_NOTE = 'Trusted: model_eq in the harness; extension arrays and tz-aware st
 RULE = ('fixed universe (~150 scalars, numpy scalars, timestamps, empty/non-empty containers of each kind, arrays of several dtypes/shapes incl. 0-d, 0-size and '
         'equal-length-different-shape, Series/DataFrames differing in index/columns/length, nestings): ALL ordered pairs and ALL triples; plus random universes of 30 nested values '
         'with structural clones and one-point mutations; non-trivial = a universe, or a random pair of different container kinds, or a structure with NaN at depth >= 2; distinct = canonical hash')
+RULE_ALSO = '; added by the coverage audit and round 8: NaT scalars (datetime64 / timedelta64) alone and in containers, float32 / float / float64 of one decimal, Series on MultiIndexes of different depth'
 ASSUMPTIONS = ['dict keys are strings', 'pandas extension arrays, timezone-aware stamps and object-dtype arrays holding containers are outside the universe',
                "'plain' for the agreement-with-== law means builtin None/bool/int/float/str/date/datetime and list/tuple/dict nestings of them, NaN-free, compared between values of the same structure of types"]
 
@@ -395,6 +396,22 @@ def run_case(case, ctx):
     k = case['kind']
     if k == 'universe':
         terms = universe() if case['which'] == 'fixed' else case['terms']
+        if case['which'] == 'fixed' and case.get('order'):
+            # eq is a function of its two arguments: what this process compared earlier has no say. Each shard is a fresh process and walks the
+            # fixed universe in an order of its own, so the first comparison ever made (and the first of each kind) differs from shard to shard
+            how = case['order']
+            if how == 'reversed':
+                terms = terms[::-1]
+            elif how == 'shuffled':
+                terms = list(terms); random.Random(case.get('order_seed', 0)).shuffle(terms)
+            elif how == 'zero_d_first':
+                zero_d = [t for t in terms if isinstance(t, dict) and '$arr' in t and not isinstance(t['$arr'][1], list)]
+                cont = [t for t in terms if isinstance(t, (list, dict)) and t not in zero_d]
+                terms = zero_d + cont[:40] + [t for t in terms if t not in zero_d and t not in cont[:40]]
+            elif how == 'scalars_first':
+                sc = [t for t in terms if not isinstance(t, (list, dict))]
+                terms = sc + [t for t in terms if isinstance(t, (list, dict))]
+            ctx.cls('fixed_universe_order:%s' % how)
         laws(ctx, terms, 'universe:' + case['which'])
     elif k == 'views':
         run_views(case, ctx)
@@ -406,12 +423,16 @@ def run_case(case, ctx):
 
 def plan(tier, seed, n):
     per = 6 if tier == 'quick' else 200
-    return [{'fixed': i == 0, 'nu': per} for i in range(n)]
+    orders = [None, 'reversed', 'zero_d_first', 'shuffled', 'scalars_first']
+    return [{'fixed': i < len(orders) and i < max(n - 2, 1), 'order': orders[i] if i < len(orders) else None, 'nu': per} for i in range(n)]
 
 
 def run(spec, ctx):
     if spec['fixed']:
         case = {'kind': 'universe', 'which': 'fixed', 'size': len(universe())}
+        if spec.get('order'):
+            case['order'] = spec['order']
+            case['order_seed'] = spec['seed'] * 100 + spec['shard']
         ctx.case(case, nontrivial=True)
         ctx.run_case(case, run_case)
         return
